@@ -1331,3 +1331,133 @@ func c07DynJustAttrs(c *Ctx) {
 			"hcldec."+sp+" takes every attribute of its block's body (JustAttributes) and hcldec.Variables reports their variables, but the hcldec-driven walker of ext/dynblock only visits bodies by schema and never asks for JustAttributes: dynblock.VariablesHCLDec reports none of those variables")
 	}
 }
+
+// ---- C08 customdecode.type -----------------------------------------------------------------------------
+
+func init() { registerExtra("C08", c08CustomDecodeType) }
+
+func c08CustomDecodeType(c *Ctx) {
+	c.Rule("customdecode.type: the custom expression decoder attached (through CapsuleOps.ExtensionData) to a capsule type of ext/customdecode returns, on every path, a value made by cty.CapsuleVal with THAT capsule type (directly or through a constructor of the package every return of which is one): hcldec.AttrSpec and BlockAttrsSpec return the custom decoder's result unconverted, so this is what makes the decoded value conform to the implied type")
+	cd := modPath + "/ext/customdecode"
+	pkg := c.P.SSAPkg("ext/customdecode")
+	if pkg == nil {
+		c.CheckerFail("customdecode.type", "package ext/customdecode not loaded")
+		return
+	}
+	initFn := pkg.Func("init")
+	var inits []*ssa.Function
+	if initFn != nil {
+		inits = append(inits, initFn)
+	}
+	for _, m := range pkg.Members {
+		if f, ok := m.(*ssa.Function); ok && strings.HasPrefix(f.Name(), "init#") {
+			inits = append(inits, f)
+		}
+	}
+	// capsuleOf: which global capsule type a value-producing call yields
+	var capsuleOf func(v ssa.Value, d int) *ssa.Global
+	capsuleOf = func(v ssa.Value, d int) *ssa.Global {
+		call, ok := v.(*ssa.Call)
+		if !ok || d > 3 {
+			return nil
+		}
+		k := staticCallee(&call.Call)
+		if k == nil {
+			return nil
+		}
+		if fnPkg(k) != nil && fnPkg(k).Path() == ctyPath && k.Name() == "CapsuleVal" && len(call.Call.Args) > 0 {
+			if u, ok := call.Call.Args[0].(*ssa.UnOp); ok && u.Op == token.MUL {
+				if g, ok := u.X.(*ssa.Global); ok {
+					return g
+				}
+			}
+			return nil
+		}
+		if fnPkg(k) == nil || fnPkg(k).Path() != cd || len(k.Blocks) == 0 {
+			return nil
+		}
+		var res *ssa.Global
+		for _, b := range k.Blocks {
+			r, ok := b.Instrs[len(b.Instrs)-1].(*ssa.Return)
+			if !ok || len(r.Results) == 0 {
+				continue
+			}
+			for _, o := range originsOf(r.Results[0], nil) {
+				g := capsuleOf(o, d+1)
+				if g == nil || (res != nil && res != g) {
+					return nil
+				}
+				res = g
+			}
+		}
+		return res
+	}
+	n := 0
+	for _, in := range inits {
+		for _, b := range in.Blocks {
+			for _, ins := range b.Instrs {
+				st, ok := ins.(*ssa.Store)
+				if !ok {
+					continue
+				}
+				g, ok := st.Addr.(*ssa.Global)
+				if !ok || !isNamed(st.Val.Type(), ctyPath, "Type") {
+					continue
+				}
+				call, ok := st.Val.(*ssa.Call)
+				if !ok || staticCallee(&call.Call) == nil || staticCallee(&call.Call).Name() != "CapsuleWithOps" || len(call.Call.Args) < 3 {
+					continue
+				}
+				ops, ok := call.Call.Args[2].(*ssa.Alloc)
+				if !ok {
+					continue
+				}
+				for _, fst := range fieldStoresByName(ops, "ExtensionData") {
+					var ext *ssa.Function
+					switch x := fst.Val.(type) {
+					case *ssa.Function:
+						ext = x
+					case *ssa.MakeClosure:
+						ext, _ = x.Fn.(*ssa.Function)
+					}
+					if ext == nil {
+						continue
+					}
+					var decoders []*ssa.Function
+					var collect func(f *ssa.Function)
+					collect = func(f *ssa.Function) {
+						for _, a := range f.AnonFuncs {
+							res := a.Signature.Results()
+							if res.Len() == 2 && isCtyValue(res.At(0).Type()) && isDiagnosticsType(res.At(1).Type()) {
+								decoders = append(decoders, a)
+							}
+							collect(a)
+						}
+					}
+					collect(ext)
+					for _, dfn := range decoders {
+						for _, db := range dfn.Blocks {
+							r, ok := db.Instrs[len(db.Instrs)-1].(*ssa.Return)
+							if !ok {
+								continue
+							}
+							for _, o := range originsOf(r.Results[0], nil) {
+								n++
+								c.Sites++
+								c.Fn(FuncName(dfn))
+								got := capsuleOf(o, 0)
+								why := "is the " + describeOrigin(o)
+								if got != nil {
+									why = "has the capsule type " + got.Name()
+								}
+								c.Check(got == g, "customdecode.type", "ext/customdecode:decoder["+g.Name()+"]", r.Pos(), "a capsule value of "+g.Name(),
+									"the custom decoder attached to "+g.Name()+" returns a value that "+why+": hcldec returns it unconverted, so the decoded value does not have the spec's implied type")
+							}
+						}
+					}
+				}
+			}
+		}
+	}
+	c.Floor("customdecode.type decoder results", n, 2, "ExpressionType and ExpressionClosureType")
+}
